@@ -118,8 +118,8 @@ pub fn contains(This(this): This<Value>, arg: Value) -> Result<Value> {
     Ok(match this {
         Value::List(v) => v.contains(&arg),
         Value::Map(v) => v
-            .map
-            .contains_key(&arg.try_into().map_err(ExecutionError::UnsupportedKeyType)?),
+            .get(&arg.try_into().map_err(ExecutionError::UnsupportedKeyType)?)
+            .is_some(),
         Value::String(s) => {
             if let Value::String(arg) = arg {
                 s.contains(arg.as_str())
